@@ -614,6 +614,8 @@ def run(res, tier):
     res.rule("SC-2", "an entry guard `scratch.available() >= X_tmp_bytes(..)` names the operation's own companion (or its family's shared query)")
     res.rule("SC-3", "on every path the first effective use of an object taken from scratch initialises it (zero/fill/store/encode/sampling, or output operand of an overwrite-type operation); never a read or accumulate operand")
     res.rule("SC-4", "a take whose size cannot be a 64-byte multiple (literal ring degree) is not followed by another consumer of the same scratch")
+    res.rule("SC-8", "mirror-form pairs: every operand whose limb count / precision / length the size of a taken temporary depends on also occurs in the companion's term(s) of the same kind (dependence, not arithmetic)")
+    res.rule("SC-7", "at a size-query call site, a usize argument that the caller knows under the name of one of the query's declared parameters (trait declaration names; the caller's own parameters take the names of its trait declaration) sits in that parameter's position")
     res.rule("SC-6", "a temporary created from a layout literal and handed to a nested operation is declared, in the companion, by the nested query evaluated on a literal with equal fields under the parameter correspondence")
     res.rule("SC-5", "only the scratch carver builds scratch views / typed slices from raw bytes")
     res.assumptions = ["each callee is verified against its own declaration separately (modular)", "size queries are monotone in their arguments", "argument-level arithmetic is not decided"]
@@ -631,6 +633,10 @@ def run(res, tier):
         res.floor("SC-4", "literal-degree takes", n4, 1)
         n5 = sc5(p, res)
         res.floor("SC-5", "raw carving sites", n5, 5)
+        n8 = sc8(p, res, pairs)
+        res.floor("SC-8", "direct takes of mirror-form pairs with a same-kind companion term", n8, 40)
+        n7 = sc7(p, res)
+        res.floor("SC-7", "size-query call sites with role-named scalar arguments", n7, 20)
         n6 = sc6(p, res, pairs)
         res.floor("SC-6", "conversion temporaries handed to nested operations", n6, 1)
         res.fn_count += res.extra.get("pairs_found", 0)
@@ -746,6 +752,269 @@ def sc6(p, res, pairs):
                             "%s passes %s a temporary it creates with a layout literal as `%s`, but its companion %s never evaluates %s on a literal with the same fields "
                             "(fields not dominated: %s): the declared size is computed for a different shape than the one the nested operation receives"
                             % (f.pretty, g.name, pn, comp.name, gqn, "; ".join(sorted(set(why))) or "different field set"), site=f.where(t["l"]))
+    return n
+
+
+# ------------------------------------------------------------------ SC-7
+def sc7(p, res):
+    """size-query call sites: a scalar argument that the caller knows under the name of one of the query's declared parameters is passed in that parameter's position"""
+    n = 0
+
+    def strip(x):
+        return x.lstrip("_") if isinstance(x, str) else x
+
+    def decl_names(uid):
+        """declared parameter names of a callable (trait declaration preferred), self included"""
+        if uid in p.decl_args:
+            return [strip(x) for x in p.decl_args[uid]]
+        f = p.fn(uid)
+        if f is None:
+            return None
+        if f.trait_item and f.trait_item in p.decl_args:
+            return [strip(x) for x in p.decl_args[f.trait_item]]
+        pn = f.param_names()
+        return [strip(pn.get(i)) for i in range(1, f.argc + 1)]
+
+    for f in sorted(p.lib_fns(), key=lambda x: x.uid):
+        if f.kind == "Closure":
+            continue
+        own = decl_names(f.uid) or []
+        flow = None
+        for bi, t in f.calls():
+            d = f.callee_def(t) or {}
+            cn = d.get("n", "")
+            if not (cn.endswith("_tmp_bytes") or cn.endswith("_tmp_bytes_default")):
+                continue
+            roles = decl_names(d.get("u")) or (decl_names(f.callee_res(t)) if f.callee_res(t) else None)
+            if not roles or len(roles) != len(t["a"]):
+                continue
+            if flow is None:
+                flow = Flow(f)
+            beliefs = []
+            for a in t["a"]:
+                b = None
+                if a[0] in ("c", "m") and len(a[1]) == 1 and f.local_ty(a[1][0])["s"] == "usize":
+                    rr = flow.op_roots(a)
+                    if len(rr) == 1:
+                        r = next(iter(rr))
+                        if r[0] == "param" and not r[2] and r[1] - 1 < len(own):
+                            b = own[r[1] - 1]
+                    if b is None:
+                        # a named local (let binding) of the caller
+                        l = a[1][0]
+                        seen = set()
+                        while l is not None and l not in seen:
+                            seen.add(l)
+                            nm = f.local_name(l)
+                            if nm:
+                                b = strip(nm)
+                                break
+                            ds = flow.defs.get(l, [])
+                            if len(ds) == 1 and ds[0][0] == "stmt" and ds[0][4]["k"] == "Use" and ds[0][4]["o"][0][0] in ("c", "m") and len(ds[0][4]["o"][0][1]) == 1:
+                                l = ds[0][4]["o"][0][1][0]
+                            else:
+                                l = None
+                beliefs.append(b)
+            if not any(b in roles for b in beliefs if b):
+                continue
+            n += 1
+            bad = []
+            for i, b in enumerate(beliefs):
+                if b and b != roles[i] and b in roles:
+                    j = roles.index(b)
+                    if beliefs[j] != b:
+                        bad.append((i, b, roles[i]))
+            if bad:
+                res.bad("SC-7", f.pretty, "argument-roles-crossed:%s" % cn,
+                        "%s calls %s with `%s` in the position of parameter `%s` (declared order: %s): the query is evaluated for another shape than the one the caller means"
+                        % (f.pretty, cn, bad[0][1], bad[0][2], ", ".join(str(r) for r in roles[1:])), site=f.where(t["l"]))
+            else:
+                res.ok("SC-7", {"fn": f.pretty, "query": cn, "args": beliefs[1:]} if n % 40 == 1 else None)
+    return n
+
+
+# ------------------------------------------------------------------ SC-8
+MAGNITUDE = ("size", "max_k", "k", "len", "limbs", "max_size", "effective_k")
+
+
+def magnitude_params(key, out, depth=0):
+    """parameters whose limb count / precision / length a canonical polynomial key depends on"""
+    if depth > 8:
+        return
+    for mono, c in key:
+        for a in mono:
+            magnitude_atom(a, out, depth)
+
+
+def magnitude_atom(a, out, depth):
+    if not isinstance(a, tuple) or len(a) < 3:
+        return
+    if a[0] == "f":
+        args = a[2]
+        if a[1] in MAGNITUDE and len(args) == 1:
+            inner = args[0]
+            for mono, c in inner:
+                for b in mono:
+                    if isinstance(b, tuple) and b[0] == "p":
+                        out.add(b[1])
+                    else:
+                        magnitude_atom(b, out, depth + 1)
+            return
+        for k in args:
+            if isinstance(k, tuple) and k and isinstance(k[0], tuple) and len(k[0]) == 2 and isinstance(k[0][0], tuple):
+                magnitude_params(k, out, depth + 1)
+    elif a[0] == "sz" or a[0] == "q":
+        for k in a[2]:
+            magnitude_params(k, out, depth + 1)
+
+
+def params_in_key(key, out, depth=0):
+    if depth > 10 or not isinstance(key, tuple):
+        return
+    for item in key:
+        if isinstance(item, tuple):
+            if len(item) == 3 and item[0] == "p" and isinstance(item[1], int):
+                out.add(item[1])
+            else:
+                params_in_key(item, out, depth + 1)
+
+
+def subst_key(key, mapping):
+    """substitute ("p", i, ()) atoms by polynomials (mapping: i -> Poly), recursing into function arguments; returns a Poly"""
+    out = Poly()
+    for mono, c in key:
+        term = Poly.const(c)
+        for a in mono:
+            term = term * subst_atom(a, mapping)
+        out = out + term
+    return out
+
+
+def subst_atom(a, mapping):
+    if isinstance(a, tuple) and len(a) == 3 and a[0] == "p" and a[2] == () and a[1] in mapping:
+        return mapping[a[1]]
+    if isinstance(a, tuple) and len(a) >= 3 and a[0] in ("f", "sz", "q") and isinstance(a[2], tuple):
+        args = []
+        for k in a[2]:
+            if isinstance(k, tuple) and (not k or (isinstance(k[0], tuple) and len(k[0]) == 2 and isinstance(k[0][0], tuple))):
+                args.append(subst_key(k, mapping).key())
+            else:
+                args.append(k)
+        return Poly.atom((a[0], a[1], tuple(args)) + tuple(a[3:]))
+    return Poly.atom(a)
+
+
+def sc8(p, res, pairs):
+    """mirror-form pairs: every operand whose limb count / precision the size of a temporary taken by the operation depends on also occurs in the
+    companion's term(s) of the same kind"""
+    import json
+    import os
+    from .sym import Sym
+    table_path = os.path.join(os.path.dirname(os.path.dirname(os.path.abspath(__file__))), "rules", "sc1_pairs.json")
+    frozen = json.load(open(table_path))
+    T = SCR_T + ("to_ref", "to_mut")
+    n = 0
+    for uid in sorted(pairs):
+        if uid not in frozen or frozen[uid]["verdict"] != "covered":
+            continue
+        f, comp, corr, how = pairs[uid]
+        flow = Flow(f, transparent=T)
+        sym = Sym(f, flow)
+        # companion parameter -> polynomial in the operation's frame
+        mapping = {}
+        if how == "guard":
+            for bi, t in f.calls():
+                if any(x == comp.uid for x in p.targets(f, t)) or (f.callee_def(t) or {}).get("n") in (comp.name, comp.name.replace("_default", "")):
+                    for i, a in enumerate(t["a"]):
+                        mapping[i + 1] = sym.operand(a)
+                    break
+        if not mapping:
+            for cl, ol in corr.items():
+                mapping[cl] = Poly.atom(("p", ol, ()))
+        # demand: direct takes
+        dem = {}
+        for bi, t in f.calls():
+            d = f.callee_def(t) or {}
+            nm = d.get("n", "")
+            if not nm.startswith("take_") or nm == "take_slice":
+                continue
+            at = take_atom(f, d, t, lambda op: sym.operand(op))
+            if at is None:
+                continue
+            for a in at.atoms():
+                if a[0] == "sz":
+                    ps = set()
+                    magnitude_atom(a, ps, 0)
+                    # layout literal / infos argument: follow the aggregate
+                    if len(t["a"]) == 2 and not ps:
+                        for r in flow.op_roots(t["a"][1]):
+                            if r[0] == "param":
+                                ps.add(r[1])
+                            elif r[0] == "agg":
+                                st = f.blocks[r[1]]["s"][r[2]][2]
+                                for o in st.get("o", []):
+                                    magnitude_params(sym.operand(o).key(), ps)
+                    dem.setdefault(a[1], []).append((ps, t["l"], nm))
+        if not dem:
+            continue
+        # supply: same-kind terms of the companion
+        cflow = Flow(comp, transparent=T)
+        csym = Sym(comp, cflow)
+        sup = {}
+        wild = {}
+        for bi, t in comp.calls():
+            d = comp.callee_def(t) or {}
+            at = sc.size_atom(comp, d, t, lambda op: csym.operand(op))
+            if at is None or at[0] != "sz":
+                continue
+            ps = set()
+            args = [a for a in t["a"] if not sc.is_receiver(comp, a)]
+            for a in args:
+                k = csym.operand(a).key()
+                magnitude_params(subst_key(k, mapping).key(), ps)
+                for r in cflow.op_roots(a):
+                    if r[0] == "param" and r[1] in mapping:
+                        # an infos object handed over whole
+                        magnitude_params(Poly.atom(("f", "size", (mapping[r[1]].key(),))).key(), ps)
+                    elif r[0] == "agg":
+                        st = comp.blocks[r[1]]["s"][r[2]][2]
+                        for o in st.get("o", []):
+                            magnitude_params(subst_key(csym.operand(o).key(), mapping).key(), ps)
+            sup.setdefault(at[1], set()).update(ps)
+            # companion parameters without a counterpart in the operation: each may stand for any one operand
+            for a in args:
+                for r in cflow.op_roots(a):
+                    if r[0] == "param" and r[1] not in mapping and r[1] > 1:
+                        wild.setdefault(at[1], set()).add(r[1])
+                    elif r[0] == "agg":
+                        st = comp.blocks[r[1]]["s"][r[2]][2]
+                        for o in st.get("o", []):
+                            ks = set()
+                            params_in_key(csym.operand(o).key(), ks)
+                            for i in ks:
+                                if i not in mapping and i > 1:
+                                    wild.setdefault(at[1], set()).add(i)
+                ks = set()
+                params_in_key(csym.operand(a).key(), ks)
+                for i in ks:
+                    if i not in mapping and i > 1:
+                        wild.setdefault(at[1], set()).add(i)
+        pn = f.param_names()
+        for kind, lst in sorted(dem.items()):
+            if kind not in sup:
+                continue  # paid through another kind of term: SC-1's business
+            for ps, line, nm in lst:
+                n += 1
+                missing = sorted(x for x in ps if x not in sup[kind] and 1 <= x <= f.argc)
+                if missing and len(missing) <= len(wild.get(kind, ())):
+                    res.undec("SC-8", "%s: %s grows with %s; the companion's %s term depends on %d parameter(s) without a known counterpart" % (f.pretty, kind, [pn.get(x) for x in missing], kind, len(wild[kind])))
+                    continue
+                if missing:
+                    res.bad("SC-8", f.pretty, "operand-not-in-declared-size:%s:%s" % (kind, ",".join(pn.get(x, "#%d" % x) for x in missing)),
+                            "%s takes a %s whose size grows with operand(s) %s, but no %s term of its companion %s depends on their size: a long enough operand overruns the declared scratch"
+                            % (f.pretty, kind, ", ".join("`%s`" % pn.get(x, "#%d" % x) for x in missing), kind, comp.name), site=f.where(line))
+                else:
+                    res.ok("SC-8", {"op": f.pretty, "take": nm, "kind": kind, "operands": sorted(pn.get(x, "#%d" % x) for x in ps)} if n % 20 == 1 else None)
     return n
 
 
